@@ -55,7 +55,7 @@ def scratch_root():
     return d
 
 
-def build_unit(name, cpp, roots, defines=(), sessions=2, cuts=(), inline_all=False, extra_c=(), cdefs=(), all_hooks=False, coroutines=(), nested=False, intruder=False, new_hints=None):
+def build_unit(name, cpp, roots, defines=(), sessions=2, cuts=(), inline_all=False, extra_c=(), cdefs=(), all_hooks=False, coroutines=(), nested=False, intruder=False, new_hints=None, no_typed_arrays=False):
     """compile harness `cpp` against /repo/include, translate, goto-cc.  returns dict(dir, c, gb, info)"""
     wd = os.path.join(scratch_root(), name)
     os.makedirs(wd, exist_ok=True)
@@ -78,7 +78,7 @@ def build_unit(name, cpp, roots, defines=(), sessions=2, cuts=(), inline_all=Fal
         raise BuildError('opt failed:\n' + err[-3000:])
     text = open(lll).read()
     try:
-        src, info = ll2c.translate(text, roots, dict(cuts=list(cuts) + DEFAULT_CUTS, all_hooks=all_hooks, coroutines=list(coroutines), nested_coroutines=nested, intruder=intruder, new_hints=new_hints or {}))
+        src, info = ll2c.translate(text, roots, dict(cuts=list(cuts) + DEFAULT_CUTS, all_hooks=all_hooks, coroutines=list(coroutines), nested_coroutines=nested, intruder=intruder, new_hints=new_hints or {}, no_typed_arrays=no_typed_arrays))
     except Exception as e:
         raise BuildError('ll2c failed on %s: %r' % (cpp, e))
     if info['missing']:
